@@ -24,6 +24,19 @@ CLAIMED["C03"] = dict(
    technique="contract-based deductive verification: loop invariants on the real function, lemma instantiation, regular-language inclusion lemmas, compute lemmas over the extracted tables; lemma witnesses mapped back to inputs and replayed on the real code",
    design="5.C03")
 
+CLAIMED["C11"] = dict(
+   level="proof",
+   text="Contract on ComponentHandler.ServeHTTPBuffered over a ghost trace of every operation on the http.ResponseWriter (Header().Set, WriteHeader, Write, http.Error, delegation to the configured error handler), taken from the property statement: with D the bytes the component rendered into the pooled buffer, a successful render extends the trace by exactly [Set(Content-Type), WriteHeader(Status) if configured, Write(D)]; a failed render by exactly [Set(Content-Type), delegate to ErrorHandler(r, err)] or [http.Error(500)] - no byte of D, no success status. The component is arbitrary (only the Component.Render interface contract is assumed: append-only output, non-nil error iff a callee failed), so this holds for every component, every fault point and every handler configuration. Pool resource invariant (every pooled buffer is empty) is an obligation at Put and an assumption at Get. The streaming handler carries the documented weaker contract.",
+   note="govc + solvers; ResponseWriter modelled by its operation trace; what the configured error handler itself writes is one opaque delegate event; sync.Pool semantics assumed (Get returns New() or a value that was Put)",
+   technique="contract-based deductive verification with ghost trace state; interface contract for Component.Render; bounded search on the real handler as replay",
+   design="5.C11")
+CLAIMED["C18"] = dict(
+   level="other",
+   text="Partial (framing half of the property only): (1) stream.Write: on success the connection received exactly \"Content-Length: \" + decimal(len(data)) + CRLF CRLF + data, with data the json.Marshal bytes - the header counts bytes of exactly what follows; (2) stream.Read: no index/slice/allocation panic on any input (safety sweep), and success only if a positive Content-Length was parsed and exactly that many bytes after the blank line were consumed and handed to DecodeMessage; every truncated / colon-less / non-numeric / zero / negative / missing length path returns a non-nil error; (3) conn.write: the whole frame is written while writeMu is held (ghost lock flag). Proved for all inputs by SMT over the real function bodies. NOT decided: JSON round trip, call/response matching, cancellation, hangs, interleavings (schedules/liveness are outside this family).",
+   note="govc + solvers; assumed contracts: bufio.Reader.ReadString, io.ReadFull, strconv.ParseInt, strings.TrimSpace, fmt.Fprintf(%s %v), json.Marshal, io.Writer; chunking hidden behind the bufio.Reader contract; termination not proved",
+   technique="contract-based deductive verification (function contracts, loop invariant, ghost input/output streams, ghost lock flag); bounded search on the real stream as replay",
+   design="5.C18")
+
 NA = {
  "C02": "compiler correctness: needs a formal semantics of templ and of the emitted Go subset; no per-function contract can state 'denotes' without restating the generator (locally expressible parts are claimed under C01/C03/C04/C10/C16/C07)",
  "C08": "whole-formatter semantic preservation needs the same two semantics plus go/format; not expressible as function contracts",
